@@ -114,6 +114,21 @@ def job_scalar(cfg):
             return d > 1e-9, {"k": kf, "p": pf, "max_abs_difference_form_vs_operator": d}
         return replay
 
+    def make_replay_asm(form_builder, mt):
+        def replay(env):
+            kf = fval(env, k)
+            pf = [fval(env, x) for x in pc_]
+            Af = np.array([[fval(env, A[i, j]) for j in range(dim)] for i in range(dim)])
+            m2 = get_mesh(et)
+            g2 = m2.groupElem
+            f2 = Field(g2, 1, mt)
+            form = form_builder(kf, pf, Af, f2)
+            asm2 = np.asarray(form.Assemble(f2).toarray(), dtype=float)
+            ref = scatter_add(g2, 1, form.Integrate_e(f2)).astype(float)
+            d = float(np.abs(asm2 - ref).max())
+            return d > 1e-9, {"k": kf, "max_abs_difference_Assemble_vs_scatter_add": d}
+        return replay
+
     cases = []
     # 1. k * grad u . grad v  (rigi quadrature)
     cases.append(("k grad(u).grad(v)", MatrixType.rigi,
@@ -150,7 +165,7 @@ def job_scalar(cfg):
             if name == "k grad(u).grad(v)":
                 asm = form.Assemble(field)
                 asm = asm.a if isinstance(asm, facade.SymMatrix) else np.asarray(asm.toarray(), dtype=object)
-                compare_arrays(res, f"{key}: Assemble = scatter-add", asm, scatter_add(g, 1, got), pcs, make_replay(fb, ob, mt), 0, key=f"{key}: BiLinearForm.Assemble")
+                compare_arrays(res, f"{key}: Assemble = scatter-add", asm, scatter_add(g, 1, got), pcs, make_replay_asm(fb, mt), TOL, key=f"{key}: BiLinearForm.Assemble")
         # linear forms
         field = Field(g, 1, MatrixType.mass)
         lf = LinearForm(lambda v: poly_coef(pc_, *field.Get_coords(), dim) * v)
@@ -188,7 +203,7 @@ def job_scalar(cfg):
         try:
             asmF = lf.Assemble(field)
             asmF = asmF.a if isinstance(asmF, facade.SymMatrix) else np.asarray(asmF.toarray(), dtype=object)
-            compare_arrays(res, f"{key}: LinearForm.Assemble = scatter-add", asmF, scatter_add(g, 1, gotF, False), pcs, replay_asm, 0, key=f"LinearForm.Assemble {et}")
+            compare_arrays(res, f"{key}: LinearForm.Assemble = scatter-add", asmF, scatter_add(g, 1, gotF, False), c.pc_since(mark), replay_asm, TOL, key=f"LinearForm.Assemble {et}")
         except (AssertionError, ValueError, IndexError) as e:
             res.record(f"{key}: LinearForm.Assemble = scatter-add", Outcome("cex", env={}, how="raised"), replay_asm, key=f"LinearForm.Assemble {et}")
     res.paths, res.path_conditions = 1, len(c.pc_since(mark))
@@ -497,7 +512,92 @@ def job_moved(cfg):
     return res
 
 
+def job_assemble(cfg):
+    """direct sparse assembly of a form = scatter-add of its element arrays, at EVERY scale of the coefficient: the forms are
+    homogeneous in one symbolic factor k in (0, 10], and the obligation is relative to it, |Assemble - scatter-add| <= tol x k
+    (a problem written in small units has small entries; they are entries all the same).  Value-dependent branches on the
+    entries (thresholds) split the k-axis into regions that are enumerated (engine/paths.py)."""
+    from EasyFEA.FEM import Field, BiLinearForm, LinearForm, MatrixType
+    from engine import paths
+
+    res = JobResult(cfg)
+    c = new_context()
+    facade.install()
+    et, dof_n = cfg["elem"], cfg["dof_n"]
+    mesh = get_mesh(et)
+    g = mesh.groupElem
+    k = c.var("k", 0, 10, shadow=Fraction(3, 2))
+    res.symbols = 1
+    key = f"assembly {et} dof_n={dof_n}"
+    res.functions |= {"BiLinearForm.Assemble", "LinearForm.Assemble", "BiLinearForm.Integrate_e", "LinearForm.Integrate_e", "_GroupElem.Get_rows_e", "_GroupElem.Get_columns_e"}
+
+    def forms(kk):
+        if dof_n == 1:
+            return BiLinearForm(lambda u, v: kk * u.grad.dot(v.grad)), LinearForm(lambda v: kk * v)
+        return BiLinearForm(lambda u, v: kk * u.grad.ddot(v.grad)), None  # value forms of vector fields are outside (see the module docstring)
+
+    def dense(M):
+        return M.a if isinstance(M, facade.SymMatrix) else np.asarray(M.toarray(), dtype=object)
+
+    def body(i):
+        with facade.symbolic():
+            out = {}
+            for nm, form, mt, is_mat in (("BiLinearForm", forms(k)[0], MatrixType.rigi, True), ("LinearForm", forms(k)[1], MatrixType.mass, False)):
+                if form is None:
+                    continue
+                field = Field(g, dof_n, mt)
+                arr = form.Integrate_e(field)
+                out[nm] = (dense(form.Assemble(field)), scatter_add(g, dof_n, arr, is_mat))
+            return out
+
+    regions, status = paths.explore(body, [k], max_regions=6, label=f"{key} coverage")
+    res.paths = len(regions)
+
+    def make_replay(nm):
+        def replay(env):
+            kf = float(as_sym(k).eval({kk: float(v) for kk, v in {**c.shadow, **(env or {})}.items()}))
+            m2 = get_mesh(et)
+            g2 = m2.groupElem
+            form = forms(kf)[0 if nm == "BiLinearForm" else 1]
+            f2 = Field(g2, dof_n, MatrixType.rigi if nm == "BiLinearForm" else MatrixType.mass)
+            asm = np.asarray(form.Assemble(f2).toarray(), dtype=float)
+            ref = scatter_add(g2, dof_n, form.Integrate_e(f2), nm == "BiLinearForm").astype(float)
+            scale = float(np.abs(ref).max())
+            d = float(np.abs(asm - ref).max()) / scale if scale > 0 else 0.0
+            return d > 1e-9, {"k": kf, "largest_entry_of_the_scatter_add": scale, "relative_difference_Assemble_vs_scatter_add": d}
+        return replay
+
+    covered = status.startswith("covered")
+    found = False
+    for r in regions:
+        paths.reshadow(c, r.shadow)
+        pcs = list(r.pcs) + list(c.side) + list(c.domain_conds())
+        for nm, (asm, ref) in r.result.items():
+            worst = None
+            for idx in np.ndindex(*ref.shape):
+                d = as_sym(asm[idx]) - as_sym(ref[idx])
+                if d.n.is_zero():
+                    continue
+                o = prove_abs_le(d / k, TOL, pcs, f"{key} {nm}")
+                if o.status != "held":
+                    worst = o
+                    break
+            found = found or (worst is not None and worst.status == "cex")
+            res.record(f"{key} region {r.index}: {nm}.Assemble = scatter-add of its element arrays, relative to the scale k of the form", worst or Outcome("held", how="exact"), make_replay(nm),
+                       key=f"{key}: {nm}.Assemble", sample=None if r.index or nm != "BiLinearForm" else {"obligation": f"{key}: for all k in (0, 10]: |Assemble - scatter-add| <= 1e-9 k, entrywise"})
+    if covered:
+        res.held(f"{key}: {len(regions)} region(s) cover k in (0, 10]", how="exact")
+    elif not found:
+        res.record(f"{key}: regions cover the scale axis", Outcome("inconclusive", how="exact", detail=status), None, key=f"{key} coverage")
+    o = prove_abs_le((as_sym(regions[0].result["BiLinearForm"][0][0, 0]) * 2 - as_sym(regions[0].result["BiLinearForm"][1][0, 0])) / k, TOL, list(regions[0].pcs) + list(c.domain_conds()), "twin")
+    res.twin(f"{key} twin", o.status == "cex")
+    res.stubs |= facade.USED_STUBS
+    return res
+
+
 def job(cfg):
+    if cfg.get("kind") == "assemble":
+        return job_assemble(cfg)
     if cfg.get("kind") == "moved":
         return job_moved(cfg)
     return {"scalar": job_scalar, "vector": job_vector, "simu": job_simu}[cfg["kind"]](cfg)
@@ -515,6 +615,8 @@ def main():
         configs.append({"kind": "simu", "elem": e, "which": "elastic"})
     for e in (["TRI3", "QUAD4"] if tier == "quick" else ["TRI3", "TRI6", "QUAD4", "TETRA4"]):
         configs.append({"kind": "moved", "elem": e})
+    for e, dn in (("TRI3", 1), ("TRI6", 1), ("TRI3", 2)) + ((("TETRA4", 1), ("QUAD4", 2)) if tier == "thorough" else ()):
+        configs.append({"kind": "assemble", "elem": e, "dof_n": dn})
     results = harness.run_jobs(job, configs)
     harness.finish(
         PID, results, t0=t0,
